@@ -1496,6 +1496,23 @@ func (x *ctx) loopEntry(st *state, fr *frame, b *ssa.BasicBlock, prev *ssa.Basic
 					}
 				}
 			}
+			// the key variable of a `for i := range s` loop: at the loop head it stands for the number of completed
+			// iterations, exactly like the counter of `for i := 0; i < len(s); i++` (rangeindex + 1)
+			if ph := rangeKeyPhi(fr.fn, b, name); ph != nil {
+				var pv val
+				if fresh {
+					pv = fr.regs[ph]
+				} else {
+					for pi, p := range b.Preds {
+						if p == prev {
+							pv = x.get(fr, st, ph.Edges[pi])
+						}
+					}
+				}
+				if pv.t.s != "" {
+					return scalar(x.binop(token.ADD, pv.t, mkbv(1, 64), types.Typ[types.Int])), true
+				}
+			}
 			return x.localByName(st, fr, b, name)
 		}
 	}
@@ -2927,4 +2944,29 @@ func (x *ctx) siteAssumes(st *state, fr *frame, b *ssa.BasicBlock, in *ssa.Call)
 		x.assumed[fmt.Sprintf("assumed about the result of %s in %s [%s]: %s", name, x.con.Target, cl.Tag(), cl.Expr)] = true
 		st.assume(g.t.s)
 	}
+}
+
+// rangeKeyPhi: name is the key variable of the range-over-slice loop whose header is b (its debug reference points to
+// rangeindex + 1); returns the rangeindex phi.
+func rangeKeyPhi(fn *ssa.Function, b *ssa.BasicBlock, name string) *ssa.Phi {
+	for _, blk := range fn.Blocks {
+		for _, in := range blk.Instrs {
+			d, ok := in.(*ssa.DebugRef)
+			if !ok || d.Object() == nil || d.Object().Name() != name {
+				continue
+			}
+			bo, ok := d.X.(*ssa.BinOp)
+			if !ok || bo.Op != token.ADD || bo.Block() != b {
+				continue
+			}
+			ph, ok := bo.X.(*ssa.Phi)
+			if !ok || ph.Comment != "rangeindex" || ph.Block() != b {
+				continue
+			}
+			if c, ok := bo.Y.(*ssa.Const); ok && c.Int64() == 1 {
+				return ph
+			}
+		}
+	}
+	return nil
 }
